@@ -109,3 +109,9 @@ def run(ctx):
     statics_rule(ctx)
     freeze_rule(ctx)
     sync_audit(ctx)
+    # "exactly one committed version, complete and searchable": besides the absence of side channels this needs what a
+    # writer leaves in its transaction to be a version a reader may be served -- the staleness protocol (C06) and the forest
+    # disciplines (C01) are premises of the statement and are re-evaluated here rather than assumed
+    from props import C01, C06
+    import premises
+    premises.forest(ctx)
